@@ -37,7 +37,8 @@ def atom_text(n):
     if k == 1:
         return "'s%d'" % n
     if k == 2:
-        return "f(y%d, 2)" % n
+        # calls, some of them named like the operators' own JSON names (the flattening code compares names)
+        return ["concat(y%d, 'z')", "add(y%d, 1)", "f(y%d, 2)", "mul(y%d, 2)", "coalesce(y%d, 0)", "f(y%d, 2)"][(n // 5) % 6] % n
     return "x%d" % n
 
 
@@ -144,6 +145,26 @@ def run(ctx):
     for p in pre:
         exprs += ["%s n" % p, "%s (n + k)" % p]
     exprs += ["n between m1 and k", "n not between m1 and k + 1", "n in (m1, k)", "n not in (select k from u)", "case when n then m1 else k end", "cast(n as int)", "n::int", "n[1]", "n.m1", "(n, k)"]
+    # operand-level redundant parentheses around calls that are named like the operators' own JSON names
+    for bare, wrapped in (("concat(n, k) || m1", "(concat(n, k)) || m1"), ("m1 || concat(n, k)", "m1 || (concat(n, k))"), ("add(n, 1) + k", "(add(n, 1)) + k"),
+                          ("k * mul(n, 2)", "k * (mul(n, 2))"), ("concat(n, 'a') || k || 's'", "((concat(n, 'a'))) || k || 's'"), ("upper(n) || k", "(upper(n)) || k")):
+        ref = None
+        for pn, (mk, get) in POS.items():
+            if pn == "between operand":
+                continue
+            for style, txt in (("bare", bare), ("operand wrapped", wrapped)):
+                st, v = impl.outcome(impl.M.parse, mk(txt))
+                ctx.count(1, (txt, pn))
+                try:
+                    got = canon(get(v)) if st == "ok" else ("REJECTED",)
+                except Exception as ex:
+                    got = ("NOPATH", repr(ex))
+                if ref is None:
+                    ref = (got, mk(txt))
+                elif got != ref[0]:
+                    ctx.violation("input", dict(expression=txt, position=pn, style=style, sql=mk(txt), subtree=short(got, 500), reference_sql=ref[1], reference_subtree=short(ref[0], 500),
+                                                requires="the same subtree in every position and under redundant parentheses"))
+                    break
     rr = ctx.rng("c10b")
     if not ctx.thorough:
         exprs = [e for i, e in enumerate(exprs) if i % 2 == ctx.seed % 2] + exprs[:4]
